@@ -38,6 +38,7 @@ FIXED = {
     "bit-ext-dropped": "f458f0a", "submodule-toplevel-ext-dropped": "ea4f583", "toplevel-uses-ext-crash": "d11bafb",
     "yin-ext-substmt-text": "a7f915d", "yin-ext-substmt-unquoted": "de4b88c", "yin-ext-substmt-index": "5e04ad1",
     "yin-xmlns-unescaped": "db375d0", "yin-submodule-xmlns-prefix": "36df73d", "yin-ext-arg-element-blank": "932327e",
+    "amend-dup-ext-parent-stmt": "7099641", "tree-ext-first-record": "dc2a73a", "yin-unres-exts-realloc": "bb5ffe8",
 }
 
 
